@@ -148,6 +148,11 @@ def model_for(src):
 NODE_METHODS = {'to_tree', 'to_string', 'get_string'}
 
 
+def _pos(n):
+    p = getattr(n, '_seq', None)
+    return p if p is not None else getattr(n, 'lineno', 10 ** 9)
+
+
 class FieldUse:
     """How a method touches the fields of `root` (self / node): which fields carry child nodes."""
 
@@ -158,6 +163,7 @@ class FieldUse:
         self.cls = cls
         self.derive = {}     # local name -> (field, shape, subattr)   (flow-insensitive fallback)
         self.assigned = {}   # (name, line) -> derivation or None (kill)
+        self.index_vars = {}  # loop index variables of `for i, x in enumerate(root.F)` -> F
         self.child_fields = {}   # field -> set of shapes ('node','elem','value','sub:<attr>'): a node method is called
         self.weak = {}           # field -> shapes: only str()/map(str) is applied (payload or node: undecided)
         self._scan()
@@ -180,6 +186,13 @@ class FieldUse:
             b = self.field_of(e.value)
             if b:
                 return (b[0], 'elem', b[2])
+        if isinstance(e, ast.Call) and isinstance(e.func, ast.Name) and e.func.id in ('list', 'tuple', 'iter', 'reversed', 'sorted') \
+                and len(e.args) == 1 and e.func.id not in getattr(self, '_shadowed', ()):
+            return self.field_of(e.args[0])
+        if isinstance(e, ast.Call) and isinstance(e.func, ast.Name) and e.func.id == 'enumerate' and e.args:
+            b = self.field_of(e.args[0])
+            if b:
+                return (b[0], 'enumerate', b[2])
         if isinstance(e, ast.Call) and isinstance(e.func, ast.Attribute) and e.func.attr in ('items', 'values', 'keys') \
                 and not e.args:
             b = self.field_of(e.func.value)
@@ -220,7 +233,7 @@ class FieldUse:
                 break
             p = parent(p)
         best = None
-        ln = getattr(name_node, 'lineno', 10 ** 9)
+        ln = _pos(name_node)
         for (anm, aln), src in self.assigned.items():
             if anm == nm and aln <= ln and (best is None or aln > best[0]):
                 best = (aln, src)
@@ -241,6 +254,11 @@ class FieldUse:
             if sh == 'items' and len(target.elts) == 2:
                 if isinstance(target.elts[1], ast.Name):
                     self.derive[target.elts[1].id] = (f, 'value', sub)
+            elif sh == 'enumerate' and len(target.elts) == 2:
+                if isinstance(target.elts[1], ast.Name):
+                    self.derive[target.elts[1].id] = (f, 'elem', sub)
+                if isinstance(target.elts[0], ast.Name):
+                    self.index_vars[target.elts[0].id] = f
             else:
                 for e in target.elts:
                     if isinstance(e, ast.Name):
@@ -258,7 +276,7 @@ class FieldUse:
                 elif isinstance(n, ast.Assign) and len(n.targets) == 1 and isinstance(n.targets[0], ast.Name):
                     src = self.field_of(n.value)
                     if n.targets[0].id != self.root:
-                        self.assigned[(n.targets[0].id, n.lineno)] = src
+                        self.assigned[(n.targets[0].id, _pos(n))] = src
         for n in ast.walk(fn):
             if isinstance(n, ast.Call):
                 f = n.func
